@@ -77,7 +77,7 @@ def lbody : Stmt :=
       .skip)
       (.seq (.atom ⟨2, .assign, (.var "v7"), (.var "v2")⟩)
       .skip))
-    (.seq (.atom ⟨1, .exprS, (.arg (.arg (.call (.var "v0.Println")) (.var "v5")) (.arg (.arg (.call (.lit "vaxis.Segment{}")) (.pair (.var "Text") (.var "v6"))) (.pair (.var "Style") (.var "v7")))), .none⟩)
+    (.seq (.atom ⟨1, .exprS, (.arg (.arg (.call (.var "v0.Println")) (.var "v5")) (.arg (.arg (.call (.lit "vaxis.Segment{}")) (.pair (.var "Style") (.var "v7"))) (.pair (.var "Text") (.var "v6")))), .none⟩)
     .skip)))
 
 theorem ldraw6_eq : ldraw6 = .rangeOver "v5" "v6" (.bin "[:]" (.var "d.items") (.pair (.var "d.offset") .none)) lbody := rfl
